@@ -117,6 +117,7 @@ struct CbGuard { CbGuard(int st) { SetZCallback64((st & 1) ? zcb64 : nullptr); S
 static void judge(Ctx& ctx, const Case& c0, bool from_replay) {
   Case c = c0;
   ctx.begin(c);
+  if (c.geti("deep", 0)) { ctx.count("polytree_export_cases_with_deep_nesting"); ctx.cmax("max_polytree_export_nesting_requested", c.geti("deep", 0)); }
   Rng zr(c.geti("zseed", 1), 7);
   Paths64 S = c.P("S"), C = c.P("C"), O = c.P("O");
   setz(zr, S); setz(zr, C); setz(zr, O);
@@ -282,6 +283,18 @@ void vf_case(Ctx& ctx, uint64_t i) {
     return pp; };
   c.p64["S"] = mk(r.irange(fn >= 12 ? 1 : 0, 3)); c.p64["C"] = mk(r.irange(fn >= 12 ? 1 : 0, 3));
   c.p64["O"] = r.chance(0.4) ? Paths64{ gen::polyline(r, 0, 0, R, r.irange(2, 6)) } : Paths64();
+  // polytree exports, one case in six: deeply nested solutions (10-300 concentric rings with a few side polygons between
+  // them), so that the flat array encoding and its length pre-pass handle trees far deeper and wider than polygon soup gives
+  if ((fn == 1 || fn == 3) && r.chance(0.17)) {
+    const int depth = (int)std::exp(r.real(std::log(10.0), std::log(300.0)));
+    const int64_t g = r.irange(3, 9);
+    Paths64 S;
+    for (int k = 0; k < depth; ++k) { int64_t rad = g * (depth - k) + 2; S.push_back(gen::box(-rad - (k % 2), -rad, rad, rad + (k % 3), true));
+      if (r.chance(0.05) && g >= 5) { int64_t q = rad - g / 2; S.push_back(gen::box(q - 1, -1, q + 1, 1, true)); } }   // a small island in the gap between two rings
+    for (int k = 0; k < 3; ++k) { int64_t x = g * (depth + 4) + 20 * k; S.push_back(gen::box(x, (int64_t)0, x + 9, (int64_t)9, r.coin())); }   // satellites beside the nest
+    c.p64["S"] = S; c.p64["C"] = r.coin() ? Paths64() : Paths64{ gen::box(-3, -g * (depth + 2), 3, g * (depth + 2), true) };
+    c.seti("deep", depth);
+  }
   if (fn >= 12) { for (auto* k : { "S", "C" }) for (auto& p : c.p64[k]) if (p.size() > 8) p.resize(8); }
   c.seti("ct", r.irange(fn < 4 ? 0 : 1, 4)); c.seti("fr", r.irange(0, 3)); c.seti("pc", r.coin()); c.seti("rev", r.coin());
   c.seti("jt", r.irange(0, 3)); c.seti("et", r.irange(0, 4)); c.seti("closed", r.coin());
